@@ -5,6 +5,7 @@
 #   3. $GOROOT/src/runtime/map.go           + seedable map iteration order / hash seed (replica divergence search)
 #   4. $GOROOT/src/time/time.go             + settable wall clock (time.SetSimNow): replicas run with skewed clocks
 #   4b. $GOROOT/src/time/sleep.go           + timers under simulated time (time.AdvanceSim): a stalled node
+#   5. $GOROOT/src/os/proc.go               + os.Exit passes a simulator hook first (the code under test ending the process)
 # Nothing in /repo is touched. The originals come from the module cache and GOROOT.
 set -euo pipefail
 export GOFLAGS=-mod=mod GOPROXY=off GOSUMDB=off GOTOOLCHAIN=local
@@ -242,11 +243,31 @@ func simRelease() {
 open(sys.argv[2],"w").write(s)
 EOF
 
-python3 - "$OUT" "$TM" "$GOROOT_DIR" "$MAPSEAM" "$CLOCKSEAM" "$TIMERSEAM" <<'EOF'
+# ---- 5. os/proc.go: os.Exit passes a simulator hook first (the code under test ending the process is an event the
+# simulator must see, not the end of the simulator)
+src="$GOROOT_DIR/src/os/proc.go"
+dst="$OUT/os_proc.go"
+EXITSEAM=1
+python3 - "$src" "$dst" <<'EOF' || EXITSEAM=0
+import sys
+s=open(sys.argv[1]).read()
+needle="func Exit(code int) {\n"
+if s.count(needle)!=1:
+    sys.exit(1)
+s=s.replace(needle,needle+"\tif h := SimExitHook; h != nil {\n\t\th(code)\n\t}\n",1)
+s+="""
+// SimExitHook, when set by the /verif simulator, is called by Exit before anything else (it may panic).
+var SimExitHook func(code int)
+"""
+open(sys.argv[2],"w").write(s)
+EOF
+
+python3 - "$OUT" "$TM" "$GOROOT_DIR" "$MAPSEAM" "$CLOCKSEAM" "$TIMERSEAM" "$EXITSEAM" <<'EOF'
 import sys,json
 out,tm,goroot,mapseam=sys.argv[1:5]
 clockseam=sys.argv[5]
 timerseam=sys.argv[6]
+exitseam=sys.argv[7]
 rep={tm+"/rpc/client/httpclient.go":out+"/tm_httpclient.go",
      tm+"/node/node.go":out+"/tm_node.go"}
 if mapseam=="1":
@@ -259,6 +280,10 @@ if timerseam=="1":
     rep[goroot+"/src/time/sleep.go"]=out+"/time_sleep.go"
     json.dump({"Replace":rep},open(out+"/../overlay.json","w"),indent=1)
 open(out+"/../clockseam","w").write(clockseam+"\n")
+if exitseam=="1":
+    rep[goroot+"/src/os/proc.go"]=out+"/os_proc.go"
+    json.dump({"Replace":rep},open(out+"/../overlay.json","w"),indent=1)
 open(out+"/../timerseam","w").write(timerseam+"\n")
+open(out+"/../exitseam","w").write(exitseam+"\n")
 EOF
-echo "overlay generated: mapseam=$MAPSEAM clockseam=$CLOCKSEAM timerseam=$TIMERSEAM"
+echo "overlay generated: mapseam=$MAPSEAM clockseam=$CLOCKSEAM timerseam=$TIMERSEAM exitseam=$EXITSEAM"
